@@ -715,17 +715,28 @@ def local_cause(a, b) -> str:
 
 def oracle(src, tgt, pre_idx=(), share=None, kw=None):
     """The property's statement on the real sqlglot.diff. Returns a list of (kind, detail); empty = holds.
-    share: None | "same" (target IS source) | (i, j): target walk node j replaced by the source's node object i."""
+    share: None | "same" (target IS source)
+           | ["s2t", i, j] (or legacy (i, j)): target walk node j is replaced by the SOURCE's node object i (attached to the target last)
+           | ["t2s", i, j]: source walk node i is replaced by the TARGET's node object j (attached to the source last:
+             the shared object's .parent then lies in the source tree)."""
     _, exp, D = sg()
     kw = kw or {}
     out = []
     if share == "same":
         tgt = src
     elif share:
+        mode, si, tj = (share if len(share) == 3 else ("s2t", share[0], share[1]))
         sw, tw = list(src.walk()), list(tgt.walk())
-        if share[1] == 0 or share[1] >= len(tw) or share[0] >= len(sw):
+        if si >= len(sw) or tj >= len(tw):
             return out
-        tw[share[1]].replace(sw[share[0]])
+        if mode == "s2t":
+            if tj == 0:
+                return out
+            tw[tj].replace(sw[si])
+        else:
+            if si == 0:
+                return out
+            sw[si].replace(tw[tj])
     sw, tw = list(src.walk()), list(tgt.walk())
     pre = [(sw[i], tw[j]) for i, j in pre_idx if i < len(sw) and j < len(tw)]
     shared = bool({id(n) for n in sw} & {id(n) for n in tw}) or len({id(n) for n in sw}) != len(sw)
@@ -749,7 +760,8 @@ def oracle(src, tgt, pre_idx=(), share=None, kw=None):
 
     def where(node, side):
         base = spos if side == "s" else tpos
-        if not shared:
+        if not shared or id(node) in base:
+            # the edit talks about an input node itself (no copy was made of that tree)
             return base.get(id(node))
         r = node.root()
         if id(r) not in cache:
@@ -803,7 +815,8 @@ def oracle(src, tgt, pre_idx=(), share=None, kw=None):
     clear_hashes(src, tgt)
     if not delta and not equal:
         out.append(("empty-unequal", "delta is empty although source != target: " + local_cause(src, tgt)))
-    if equal and delta and not pre:
+    identity_pre = len(sw) == len(tw) and all(i == j for i, j in pre_idx)
+    if equal and delta and (not pre or identity_pre):
         out.append(("equal-nonempty", f"source == target but delta has {len(delta)} edit(s): " + local_cause(src, tgt)))
     return out
 
@@ -926,7 +939,8 @@ def report(chk, kind, detail, src, tgt, pre_idx, share, kw):
         res = [d for k, d in oracle(src.copy(), tgt.copy(), (), None, kw) if k == kind]
         if res:
             detail = res[0]
-    key = kind + (":" + cause if cause else "") + "|" + skeleton(src) + "|" + skeleton(tgt)
+    key = kind + (":" + cause if cause else "") + ("|share-" + (share if isinstance(share, str) else str(share[0] if len(share) == 3 else "s2t")) if share else "") \
+        + "|" + skeleton(src) + "|" + skeleton(tgt)
     try:
         ssql, tsql = src.sql(), tgt.sql()
     except Exception:  # noqa
@@ -934,6 +948,75 @@ def report(chk, kind, detail, src, tgt, pre_idx, share, kw):
     chk.report_violation(key, detail, {"kind": kind, "src": dump_tree(src), "tgt": dump_tree(tgt), "src_sql": ssql, "tgt_sql": tsql,
                                         "pre": [list(p) for p in pre_idx], "share": share, "kw": kw},
                          context={"kind": kind, "cause": cause})
+
+
+def share_levels(walk):
+    root = walk[0]
+    lv = {"clause": [], "projection": [], "inner": [], "leaf": []}
+    for i, n in enumerate(walk):
+        if i == 0:
+            continue
+        if not any(True for _ in n.iter_expressions()):
+            lv["leaf"].append(i)
+        elif n.parent is root and n.arg_key == "expressions":
+            lv["projection"].append(i)
+        elif n.parent is root:
+            lv["clause"].append(i)
+        else:
+            lv["inner"].append(i)
+    return lv
+
+
+def pick_share(rng, a, b):
+    """a shared-node scenario: which tree donates the object (both attachment orders), at which depth"""
+    try:
+        sw, tw = list(parse(a).walk()), list(parse(b).walk())
+    except Exception:  # noqa
+        return None, None
+    mode = rng.choice(["s2t", "t2s", "t2s"])
+    ls, lt = share_levels(sw), share_levels(tw)
+    level = rng.choice([k for k in ls if ls[k]] or ["leaf"])
+    if not ls[level]:
+        return None, None
+    i = rng.choice(ls[level])
+    if a == b:
+        j = i  # the same position of an equal tree: the trees stay equal
+    else:
+        same = [k for k in lt[level] if type(tw[k]) is type(sw[i])]
+        pool = same if same and rng.random() < 0.7 else lt[level]
+        if not pool:
+            return None, None
+        j = rng.choice(pool)
+    return [mode, i, j], level
+
+
+SHARE_TEMPLATES = [
+    # equal trees sharing one object, both attachment orders, clause / projection / inner / leaf level
+    ("SELECT a, b FROM t WHERE a = 1 AND b > 2", "SELECT a, b FROM t WHERE a = 1 AND b > 2"),
+    ("SELECT a + 1 AS x, FOO(b, c) FROM t JOIN u ON t.a = u.a WHERE c IN (1, 2) ORDER BY a LIMIT 5",
+     "SELECT a + 1 AS x, FOO(b, c) FROM t JOIN u ON t.a = u.a WHERE c IN (1, 2) ORDER BY a LIMIT 5"),
+    # unequal remaining trees
+    ("SELECT a, b FROM t WHERE a = 1", "SELECT a, c, b FROM t WHERE a = 1"),
+    ("SELECT a FROM t WHERE x > 1 GROUP BY a", "SELECT a, a FROM u WHERE x > 1 GROUP BY a HAVING a > 0"),
+]
+
+
+def share_template_cases():
+    out = []
+    for a, b in SHARE_TEMPLATES:
+        try:
+            sw, tw = list(parse(a).walk()), list(parse(b).walk())
+        except Exception:  # noqa
+            continue
+        ls, lt = share_levels(sw), share_levels(tw)
+        for level in ("clause", "projection", "inner", "leaf"):
+            for i in ls[level][:2]:
+                js = [i] if a == b else [k for k in lt[level] if type(tw[k]) is type(sw[i])][:1]
+                for j in js:
+                    for mode in ("s2t", "t2s"):
+                        out.append((a, b, [], [mode, i, j], {}))
+                        out.append((a, b, [(0, 0)], [mode, i, j], {}))
+    return out
 
 
 def search(chk: Check, hints: list, budget_s: float) -> None:
@@ -950,6 +1033,7 @@ def search(chk: Check, hints: list, budget_s: float) -> None:
                 r = json.load(open(os.path.join(corpus_dir, fn)))
                 todo.append((r["src_sql"], r["tgt_sql"], [tuple(p) for p in r.get("pre", [])], r.get("share"), r.get("kw", {})))
 
+    todo += share_template_cases()
     _, _, D = sg()
 
     def consider(a, b, pre_idx, share, kw):
@@ -966,7 +1050,8 @@ def search(chk: Check, hints: list, budget_s: float) -> None:
         res = oracle(src, tgt, pre_idx, share, kw)
         if not share and not pre_idx:
             res += copy_oracle(parse(a))
-        chk.count("search:" + ("share" if share else "pre" if pre_idx else "plain"))
+        chk.count("search:" + (("share-" + (share if isinstance(share, str) else share[0] if len(share) == 3 else "s2t")
+                                 + ("-equal" if a == b else "")) if share else "pre" if pre_idx else "plain"))
         seen = set()
         for kind, detail in res:
             if kind in seen:
@@ -993,11 +1078,17 @@ def search(chk: Check, hints: list, budget_s: float) -> None:
                 pre_idx = random_pre(rng, parse(a), parse(b))
             except Exception:  # noqa
                 continue
-        elif r < 0.31:
+        elif r < 0.29:
             share = "same"
-        elif r < 0.40:
-            share = (rng.randint(1, 12), rng.randint(1, 12))
-            if rng.random() < 0.5:
+        elif r < 0.50:
+            # shared node objects, both attachment orders, several depths, equal and unequal remaining trees
+            if rng.random() < 0.45:
+                b = a
+            share, level = pick_share(rng, a, b)
+            if share is None:
+                continue
+            chk.count("share-level:" + level)
+            if rng.random() < 0.4:
                 pre_idx = [(0, 0)]
         if rng.random() < 0.2:
             kw = {"f": rng.choice(F_CHOICES), "t": float(rng.choice(T_CHOICES))}
@@ -1047,7 +1138,7 @@ def replay(path: str) -> int:
         return 1
     src, tgt = load_tree(r["src"]), load_tree(r["tgt"])
     share = r.get("share")
-    share = tuple(share) if isinstance(share, list) else share
+    share = list(share) if isinstance(share, (list, tuple)) else share
     if r["kind"] == "copy-nonempty":
         res = copy_oracle(src)
     else:
